@@ -834,7 +834,9 @@ def format_summary(obj: model.Documentable) -> Tag:
     with source.docstring_linker.switch_context(None):
         # ParserErrors will likely be reported by the full docstring as well,
         # so don't spam the log, pass report=False.
-        stan = safe_to_stan(parsed_doc, source.docstring_linker, source, report=False,
+        # The fallback marks its context as having a broken summary: this is obj, not the source of its docstring
+        # (the parent class, for an attribute documented by a field of the class docstring).
+        stan = safe_to_stan(parsed_doc, source.docstring_linker, obj, report=False,
                 fallback=format_summary_fallback)
 
     return stan
